@@ -1169,8 +1169,10 @@ static void run_coll(Rng& g, long nops, std::size_t max_node, std::size_t block_
                 above("max_alignment", [&] { return Tr::allocate_node(*c, 8, mal * 2); });
                 if (coll_state(*c) != before)
                     O->fail("C18 memory_pool_collection: a rejected request changed the collection");
-                if (arrays && ma < std::size_t(-1) - 64)
-                { // part of the history (the model sees it): before it rejects the array the collection may already have
+                static int above_array_probes = 0;
+                if (arrays && ma < (std::size_t(1) << 16) && above_array_probes++ < 2)
+                { // (at most twice per trace and only while the figure is small: every success - finding D33 - doubles the blocks)
+                  // part of the history (the model sees it): before it rejects the array the collection may already have
                   // reserved the bucket's default capacity
                     std::size_t cnt = ma / 8 + 1;
                     void*       p = nullptr;
